@@ -588,9 +588,30 @@ var c03ErrKinds = []struct{ pre, post string }{
 	{"`1` / `0` || '", "'"},    // not a number
 	{"'", "'[::0]"},            // slice step 0
 	{"\"", "\".\"b\"[?"},       // truncated filter
+	// the long text in other argument positions (each fails with its own message)
+	{"pad_left('x', `5`, '", "')"}, // pad of the wrong length
+	{"pad_right('x', `5`, '", "')"},
+	{"split('a', '", "', `-1`)"}, // separator quoted in an invalid-value message
+	{"replace('a', '", "', 'b', `1.5`)"},
+	{"find_first('a', '", "', `0.5`)"},
+	{"trim('a', `1`) || '", "'"}, // invalid type after a long operand
+	{"join('", "', `[1]`)"},      // long separator, wrong element type
+	{"starts_with(`1`, '", "')"},
+	{"from_items(`[[1, \"", "\"]]`)"},                  // long value next to a bad key
+	{"not_a_function_", "()"},                          // long unknown function name
+	{"$v", ""},                                         // long undefined variable name
+	{"{\"", "\": $u}"},                                 // long key, undefined variable
+	{"sort_by(`[{\"k\": \"", "\"}, {\"k\": 1}]`, &k)"}, // mixed key types, long first key
+	{"`{\"a\": \"", "\"}` + `1`"},                      // arithmetic on an object holding a long string
 }
 var c03ErrFill = []string{"a", "é", "日", "😀", "\u0301", "\ufffd", " ", "\\\\"}
-var c03ErrLens = []int{0, 1, 2, 7, 8, 9, 15, 16, 17, 20, 21, 22, 23, 30, 31, 32, 33, 40, 63, 64, 65, 66, 100, 127, 128, 129, 200, 255, 256, 257, 511, 512, 513, 1023, 1024, 1025, 4096, 65535, 65536, 65537}
+var c03ErrLens = func() []int {
+	var out []int
+	for n := 0; n <= 140; n++ {
+		out = append(out, n)
+	}
+	return append(out, 200, 255, 256, 257, 300, 511, 512, 513, 1023, 1024, 1025, 4096, 65535, 65536, 65537)
+}()
 
 func c03ErrTextsN(c *Ctx) int { return len(c03ErrKinds) * len(c03ErrFill) * len(c03ErrLens) }
 
@@ -599,15 +620,21 @@ func c03ErrTexts(c *Ctx, idx int) {
 	idx /= len(c03ErrKinds)
 	f := c03ErrFill[idx%len(c03ErrFill)]
 	n := c03ErrLens[idx/len(c03ErrFill)]
-	text := k.pre + strings.Repeat(f, n) + k.post
-	c.CheckNoPanic(text, map[string]any{"a": json.Number("1")}, map[string]string{"family": "error-texts"})
+	// every alignment of the multi-byte characters: zero to three single-byte characters in front
+	for shift := 0; shift < 4; shift++ {
+		if shift > 0 && (len(f) == 1 || n > 300) {
+			break
+		}
+		text := k.pre + strings.Repeat("a", shift) + strings.Repeat(f, n) + k.post
+		c.CheckNoPanic(text, map[string]any{"a": json.Number("1")}, map[string]string{"family": "error-texts"})
+	}
 	c.Nontrivial(k.pre, f, fmt.Sprint(n))
 }
 
 func init() {
 	Register(&Property{
 		ID:            "C03",
-		Rule:          "expression bytes (all prefixes/suffixes of every corpus expression - exhaustive; random bytes; random token sequences over a hostile vocabulary incl. invalid UTF-8; token mutants; 1 MiB flat inputs; 20 recursive constructs nested to depth 10..1e5 (3e5 thorough) and the 4e6 witnesses) and data (every Go numeric kind incl. NaN/Inf, odd json.Number texts, decimal specials, typed nils, foreign values, invalid UTF-8) placed in every argument position of every builtin and operator; failing expressions of every error category whose text has 0..65537 characters of one encoded width (byte length and character count differ by up to 4x around every plausible cut-off of an error message); an exhaustive slice lattice (start/stop/step over {absent, small, +-2^62, 2^63-1, 2^63-2, -2^63, -2^63+1} on single-byte strings, multi-byte strings and arrays, as literal subject / current node / after a pipe / twice in a row); each driven through Search, Compile and Expression.Search with every returned error formatted; a monitor reports recovered panics, the driver attributes child deaths through the crash-surviving intent slot; non-trivial = every distinct input (all are meaningful for a crash property)",
+		Rule:          "expression bytes (all prefixes/suffixes of every corpus expression - exhaustive; random bytes; random token sequences over a hostile vocabulary incl. invalid UTF-8; token mutants; 1 MiB flat inputs; 20 recursive constructs nested to depth 10..1e5 (3e5 thorough) and the 4e6 witnesses) and data (every Go numeric kind incl. NaN/Inf, odd json.Number texts, decimal specials, typed nils, foreign values, invalid UTF-8) placed in every argument position of every builtin and operator; failing expressions of every error category whose text - the whole expression, or one argument at each argument position - has 0..140 and up to 65537 characters of one encoded width at every byte alignment (byte length and character count differ by up to 4x around every plausible cut-off of an error message); an exhaustive slice lattice (start/stop/step over {absent, small, +-2^62, 2^63-1, 2^63-2, -2^63, -2^63+1} on single-byte strings, multi-byte strings and arrays, as literal subject / current node / after a pipe / twice in a row); each driven through Search, Compile and Expression.Search with every returned error formatted; a monitor reports recovered panics, the driver attributes child deaths through the crash-surviving intent slot; non-trivial = every distinct input (all are meaningful for a crash property)",
 		MinNontrivial: 1000,
 		Streams: []Stream{
 			{Name: "truncations", N: c03TruncN, Run: c03Trunc, Exhaustive: true},
